@@ -15,7 +15,7 @@ from sx import rt
 from sx.core import ctx
 from sx.terms import PChar
 
-BOUNDS = {"quick": {"countries": "one per distinct table signature", "positions": "first, last, both sides of every token boundary, 2 seeded interior positions per token; substitution and adjacent transposition"},
+BOUNDS = {"quick": {"countries": "one per distinct table signature", "positions": "first, last, both sides of every token boundary, 1 seeded interior position per token; substitution and adjacent transposition"},
           "thorough": {"countries": "all", "positions": "every position >= 2; substitution and adjacent transposition"}}
 STUBS = ["as C01"]
 ASSUMPTIONS = ["kind-changing errors are outside the statement (rejected by the class check: C01)"]
@@ -35,7 +35,7 @@ def positions_for(cc, tier, seed):
         if i == n or cls[i] != cls[start]:
             pick.update({start, i - 1})
             inner = list(range(start + 1, i - 1))
-            pick.update(rnd.sample(inner, min(2, len(inner))))
+            pick.update(rnd.sample(inner, min(1, len(inner))))
             start = i
         i += 1
     return sorted(p for p in pick if 0 <= p < n)
